@@ -99,6 +99,7 @@ func extractAsmShapes(repo, out string) ([]string, error) {
 		order  []int
 	}
 	var shapes []shape
+	appendReturn := ""
 	for _, e := range ents {
 		if e.IsDir() || !strings.HasSuffix(e.Name(), ".go") || strings.HasSuffix(e.Name(), "_test.go") {
 			continue
@@ -125,6 +126,14 @@ func extractAsmShapes(repo, out string) ([]string, error) {
 			}
 			if len(names) != 3 || names[0] != "root" || names[1] != "at" || names[2] != "args" || !variadic {
 				continue
+			}
+			if fd.Name.Name == "appendEval" {
+				ast.Inspect(fd.Body, func(n ast.Node) bool {
+					if rs, ok := n.(*ast.ReturnStmt); ok && len(rs.Results) == 1 {
+						appendReturn = asmExprText(fset, rs.Results[0])
+					}
+					return true
+				})
 			}
 			sh := shape{name: fd.Name.Name}
 			// the guard: the first statement, when it is `if <cond over len(args)> { panic(…) }`
@@ -208,7 +217,9 @@ func extractAsmShapes(repo, out string) ([]string, error) {
 		}
 		fmt.Fprintf(&b, "  (%s, %v, %s, %s)%s\n", asmLeanStr(sh.name), sh.guard, nat(sh.counts), nat(sh.order), sep)
 	}
-	b.WriteString("]\n\nend OjgVerif.Gen.AsmShapes\n")
+	b.WriteString("]\n\n/-- what appendEval returns (the expression of its last return statement) -/\n")
+	fmt.Fprintf(&b, "def appendReturn : String := %s\n", asmLeanStr(appendReturn))
+	b.WriteString("\nend OjgVerif.Gen.AsmShapes\n")
 	ch, err := writeIfChanged(filepath.Join(out, "AsmShapes.lean"), b.String())
 	if err != nil {
 		return nil, err
